@@ -431,4 +431,241 @@ theorem fixOne_eq (err : Int) (store : List Res) (fixes : List Premise) (ps : Li
       · simp only [c1, ↓reduceIte]; rfl
   · rfl
 
+theorem fixTwo_cases (err : Int) (store : List Res) (fixes ps : List Premise) (two : Option (List Res × List Premise))
+    (h : fixTwo err store fixes ps = .ok two) :
+    two = none ∨ ∃ p ∈ ps, ∃ store', p.apply store = .ok store' ∧ two = some (store', fixes ++ [p]) := by
+  unfold fixTwo at h
+  split at h
+  · next frst scnd =>
+    simp only [bind, Except.bind] at h
+    split at h
+    · cases h
+    · split at h
+      · split at h
+        · cases h
+        · split at h
+          · split at h
+            · split at h
+              · cases h
+              · next s hs =>
+                simp only [pure, Except.pure, Except.ok.injEq] at h
+                exact Or.inr ⟨frst, by simp, s, hs, h.symm⟩
+            · split at h
+              · cases h
+              · next s hs =>
+                simp only [pure, Except.pure, Except.ok.injEq] at h
+                exact Or.inr ⟨scnd, by simp, s, hs, h.symm⟩
+          · simp only [pure, Except.pure, Except.ok.injEq] at h
+            exact Or.inl h.symm
+      · simp only [pure, Except.pure, Except.ok.injEq] at h
+        exact Or.inl h.symm
+  · simp only [pure, Except.pure, Except.ok.injEq] at h
+    exact Or.inl h.symm
+
+theorem fixRest_cases (err : Int) (store : List Res) (fixes ps : List Premise) (res : List Res × List Premise)
+    (h : fixRest err store fixes ps = .ok res) :
+    res = (store, fixes) ∨ ∃ p ∈ ps, ∃ store', p.apply store = .ok store' ∧ res = (store', fixes ++ [p]) := by
+  unfold fixRest at h
+  split at h
+  · simp only [bind, Except.bind] at h
+    split at h
+    · cases h
+    · next sorted hsort =>
+      split at h
+      · next bst nxt tl =>
+        split at h
+        · cases h
+        · split at h
+          · split at h
+            · cases h
+            · split at h
+              · split at h
+                · cases h
+                · next s hs =>
+                  simp only [pure, Except.pure, Except.ok.injEq] at h
+                  exact Or.inr ⟨bst, sortPrems_mem _ _ _ hsort bst (by simp), s, hs, h.symm⟩
+              · simp only [pure, Except.pure, Except.ok.injEq] at h
+                exact Or.inl h.symm
+          · simp only [pure, Except.pure, Except.ok.injEq] at h
+            exact Or.inl h.symm
+      · simp only [pure, Except.pure, Except.ok.injEq] at h
+        exact Or.inl h.symm
+  · simp only [pure, Except.pure, Except.ok.injEq] at h
+    exact Or.inl h.symm
+
+/-- `fixOne` leaves the state alone or applies exactly one premise of the list and records it -/
+theorem fixOne_cases (err : Int) (store : List Res) (fixes ps : List Premise) (store' : List Res) (fixes' : List Premise)
+    (h : fixOne err (store, fixes) ps = .ok (store', fixes')) :
+    (store' = store ∧ fixes' = fixes) ∨ ∃ p ∈ ps, p.apply store = .ok store' ∧ fixes' = fixes ++ [p] := by
+  rw [fixOne_eq] at h
+  simp only [bind, Except.bind] at h
+  split at h
+  · cases h
+  · next two htwo =>
+    rcases fixTwo_cases _ _ _ _ _ htwo with rfl | ⟨p, hp, s, hs, rfl⟩
+    · simp only at h
+      rcases fixRest_cases _ _ _ _ _ h with e | ⟨p, hp, s, hs, e⟩
+      · simp only [Prod.mk.injEq] at e; exact Or.inl e
+      · simp only [Prod.mk.injEq] at e
+        obtain ⟨rfl, rfl⟩ := e
+        exact Or.inr ⟨p, hp, hs, rfl⟩
+    · simp only [pure, Except.pure, Except.ok.injEq, Prod.mk.injEq] at h
+      obtain ⟨rfl, rfl⟩ := h
+      exact Or.inr ⟨p, hp, hs, rfl⟩
+
+/-! ### the `make_fixes` loop -/
+
+def fixAt (k : Key) (s : Nat) (p : Premise) : Bool := decide (p.fragment.keyTuple = k ∧ p.sid = s)
+def fixOf (k : Key) (p : Premise) : Bool := decide (p.fragment.keyTuple = k)
+
+/-- state of the loop over the premise lists: `rest` are the lists still to be looked at -/
+structure FInv (input : List Scaffold) (b : Build) (rest : List (Key × List Premise)) (store : List Res)
+    (fixes : List Premise) : Prop where
+  counts : ∀ k s, holdCount store k s + fixes.countP (fixAt k s) = holdCount b.store k s
+  total : ∀ k, (storeFrags store).countP (hasKey k) + fixes.countP (fixOf k) = (storeFrags b.store).countP (hasKey k)
+  valid : ∀ e ∈ rest, ∀ p ∈ e.2, Valid store p ∧ p.fragment.keyTuple = e.1 ∧ e.1 ∈ b.multi
+  restNodup : (rest.map (·.1)).Nodup
+  fixNodup : (fixes.map (fun p => p.fragment.keyTuple)).Nodup
+  fixKeys : ∀ p ∈ fixes, p.fragment.keyTuple ∈ b.multi ∧ p.fragment.keyTuple ∉ rest.map (·.1)
+  slices : ∀ r ∈ store, ∃ sc ∈ input, r.o.rows <:+: sc.rows
+
+theorem valid_after_apply (store : List Res) (p q : Premise) (r : Res) (o' : OverlapResult)
+    (hr : store[p.sid]? = some r) (hne : q.fragment ≠ p.fragment) (hq : Valid store q)
+    (hp : match p.kind with
+      | .start => r.o.rows.head? = some (.frag p.fragment)
+      | .stop => r.o.rows.getLast? = some (.frag p.fragment))
+    (h1 : p.kind = .start → ∀ f, r.o.rows.getLast? = some (.frag f) → f ≠ p.fragment →
+          o'.rows.getLast? = some (.frag f))
+    (h2 : p.kind = .stop → ∀ f, r.o.rows.head? = some (.frag f) → f ≠ p.fragment →
+          o'.rows.head? = some (.frag f)) :
+    Valid (store.set p.sid { r with o := o' }) q := by
+  obtain ⟨rq, hrq, haq, hkq⟩ := hq
+  by_cases hs : q.sid = p.sid
+  · rw [hs, hr] at hrq
+    cases hrq
+    have hlt : p.sid < store.length := by
+      rcases Nat.lt_or_ge p.sid store.length with h' | h'
+      · exact h'
+      · rw [List.getElem?_eq_none h'] at hr; cases hr
+    refine ⟨{ r with o := o' }, by rw [hs, List.getElem?_set_self hlt], haq, ?_⟩
+    cases hkp : p.kind with
+    | start =>
+      rw [hkp] at hp
+      cases hkq' : q.kind with
+      | start =>
+        rw [hkq'] at hkq
+        simp only at hkq hp
+        rw [hp] at hkq
+        simp only [Option.some.injEq, Row.frag.injEq] at hkq
+        exact absurd hkq.symm hne
+      | stop =>
+        rw [hkq'] at hkq
+        exact h1 hkp _ hkq hne
+    | stop =>
+      rw [hkp] at hp
+      cases hkq' : q.kind with
+      | start =>
+        rw [hkq'] at hkq
+        exact h2 hkp _ hkq hne
+      | stop =>
+        rw [hkq'] at hkq
+        simp only at hkq hp
+        rw [hp] at hkq
+        simp only [Option.some.injEq, Row.frag.injEq] at hkq
+        exact absurd hkq.symm hne
+  · refine ⟨rq, ?_, haq, hkq⟩
+    rw [List.getElem?_set_ne (fun e => hs e.symm)]; exact hrq
+
+theorem fixFold (input : List Scaffold) (b : Build) (err : Int) : ∀ (rest : List (Key × List Premise))
+    (store : List Res) (fixes : List Premise) (store' : List Res) (fixes' : List Premise),
+    FInv input b rest store fixes →
+    rest.foldlM (fun st e => fixOne err st e.2) (store, fixes) = .ok (store', fixes') →
+    FInv input b [] store' fixes'
+  | [], store, fixes, store', fixes', hinv, h => by
+    simp only [List.foldlM_nil, pure, Except.pure, Except.ok.injEq, Prod.mk.injEq] at h
+    obtain ⟨rfl, rfl⟩ := h
+    exact hinv
+  | e :: rest, store, fixes, store', fixes', hinv, h => by
+    rw [List.foldlM_cons] at h
+    simp only [bind, Except.bind] at h
+    split at h
+    · cases h
+    · next st1 hst1 =>
+      obtain ⟨store1, fixes1⟩ := st1
+      refine fixFold input b err rest store1 fixes1 store' fixes' ?_ h
+      have hnd := hinv.restNodup
+      rw [List.map_cons, List.nodup_cons] at hnd
+      rcases fixOne_cases _ _ _ _ _ _ hst1 with ⟨rfl, rfl⟩ | ⟨p, hpe, happ, rfl⟩
+      · exact ⟨hinv.counts, hinv.total, fun e' he' => hinv.valid e' (List.mem_cons_of_mem _ he'), hnd.2,
+          hinv.fixNodup, fun q hq => ⟨(hinv.fixKeys q hq).1, fun hm =>
+            (hinv.fixKeys q hq).2 (by rw [List.map_cons]; exact List.mem_cons_of_mem _ hm)⟩, hinv.slices⟩
+      · obtain ⟨hval, hkey, hmulti⟩ := hinv.valid e (List.mem_cons_self ..) p hpe
+        obtain ⟨r, o', hr, hadd, hset, hinf, hcnt, hl, hh⟩ := apply_spec p store store1 hval happ
+        have hpk : match p.kind with
+            | .start => r.o.rows.head? = some (.frag p.fragment)
+            | .stop => r.o.rows.getLast? = some (.frag p.fragment) := by
+          obtain ⟨r2, hr2, _, hk2⟩ := hval
+          rw [hr] at hr2; cases hr2; exact hk2
+        have hres : ∀ q : Fragment → Bool, (resFrags r).countP q =
+            (resFrags { r with o := o' }).countP q + (if q p.fragment then 1 else 0) := by
+          intro q; simp only [resFrags, hadd, ↓reduceIte]; exact hcnt q
+        subst hset
+        refine ⟨?_, ?_, ?_, hnd.2, ?_, ?_, ?_⟩
+        · intro k s
+          rw [holdCount_set _ _ _ _ hr, List.countP_append, List.countP_cons, List.countP_nil]
+          have h0 := hinv.counts k s
+          by_cases hs : s = p.sid
+          · subst hs
+            rw [holdCount_self _ _ _ hr, hres (hasKey k)] at h0
+            by_cases hk : p.fragment.keyTuple = k
+            · simp only [↓reduceIte, fixAt, hasKey, hk, and_true, decide_true] at h0 ⊢
+              omega
+            · simp only [↓reduceIte, fixAt, hasKey, hk, and_true, false_and, decide_false, Bool.false_eq_true] at h0 ⊢
+              omega
+          · have : fixAt k s p = false := by
+              simp only [fixAt, decide_eq_false_iff_not]; exact fun ⟨_, e⟩ => hs e.symm
+            simp only [hs, ↓reduceIte, this, Bool.false_eq_true] at h0 ⊢
+            omega
+        · intro k
+          have h0 := hinv.total k
+          have h1 := storeFrags_set_count (hasKey k) store p.sid r { r with o := o' } hr
+          rw [hres (hasKey k)] at h1
+          rw [List.countP_append, List.countP_cons, List.countP_nil]
+          by_cases hk : p.fragment.keyTuple = k
+          · simp only [fixOf, hasKey, hk, decide_true, ↓reduceIte] at h0 h1 ⊢
+            omega
+          · simp only [fixOf, hasKey, hk, decide_false, Bool.false_eq_true, ↓reduceIte] at h0 h1 ⊢
+            omega
+        · intro e' he' q hq
+          obtain ⟨hvq, hkq, hmq⟩ := hinv.valid e' (List.mem_cons_of_mem _ he') q hq
+          refine ⟨?_, hkq, hmq⟩
+          have hne : q.fragment ≠ p.fragment := by
+            intro heq
+            apply hnd.1
+            rw [← hkey, ← heq, hkq]
+            exact List.mem_map_of_mem he'
+          exact valid_after_apply store p q r o' hr hne hvq hpk hl hh
+        · rw [List.map_append, List.nodup_append]
+          refine ⟨hinv.fixNodup, by simp, ?_⟩
+          intro a ha c hc
+          simp only [List.map_cons, List.map_nil, List.mem_cons, List.not_mem_nil, or_false] at hc
+          subst hc
+          obtain ⟨q, hq, rfl⟩ := List.mem_map.mp ha
+          intro heq
+          apply (hinv.fixKeys q hq).2
+          rw [heq, hkey, List.map_cons]
+          exact List.mem_cons_self ..
+        · intro q hq
+          rcases List.mem_append.mp hq with hq | hq
+          · exact ⟨(hinv.fixKeys q hq).1, fun hm =>
+              (hinv.fixKeys q hq).2 (by rw [List.map_cons]; exact List.mem_cons_of_mem _ hm)⟩
+          · simp only [List.mem_cons, List.not_mem_nil, or_false] at hq
+            subst hq
+            exact ⟨hkey ▸ hmulti, hkey ▸ hnd.1⟩
+        · intro x hx
+          rcases List.mem_or_eq_of_mem_set hx with hx | rfl
+          · exact hinv.slices x hx
+          · obtain ⟨sc, hsc, hi⟩ := hinv.slices r (List.mem_of_getElem? hr)
+            exact ⟨sc, hsc, hinf.trans hi⟩
+
 end AgpTpf.C01
